@@ -184,6 +184,9 @@ def ideal(prog) -> dict:
         pst = st.get(sd["parent"], "NOT_STARTED")
         if pst in ("NOT_STARTED", "SKIPPED"):
             st[sd["ref"]] = "ABSENT"
+        elif sd["req"] and any(st.get(r) not in CONT for r in sd["req"]):
+            # chained children: a sibling it waits for did not finish in a continuable status (siblings are listed in order)
+            st[sd["ref"]] = "ABSENT" if any(st.get(r) == "ABSENT" for r in sd["req"]) else "NOT_STARTED"
         elif sd["owner"] == "BEFORE":
             st[sd["ref"]] = stage_from_tasks(prog, sd)
         else:
